@@ -482,8 +482,39 @@ def proxy_fields(ctx):
               required="set.intersection of assign_arg_fields(element) over all elements, only when every element has fields")
 
 
+def proxy_flattening(ctx):
+    """The elements an Array proxy stands for are found by flattening nested proxies to ANY depth (arr[i][j][k] is a proxy of
+    proxies of proxies): the helper that flattens recurses on itself for every element that is a proxy and yields the others.
+    One level of `yield from elem.elems` leaves proxies in the list for three or more levels of indexing; the field set is then
+    None and the whole word is assigned."""
+    import ast
+
+    fi = ctx.repo.func(REL, "arrayproxy_fields")
+    helpers = [n for n in ast.walk(fi.node) if isinstance(n, ast.FunctionDef) and n is not fi.node and any(isinstance(y, (ast.Yield, ast.YieldFrom)) for y in ast.walk(n))]
+    ctx.floor("C40", "flattening helpers in arrayproxy_fields", len(helpers), 1, fi.site)
+    for h in helpers:
+        ok = False
+        detail = "no loop over the proxy's elements"
+        param = h.args.args[0].arg if h.args.args else None
+        for loop in [n for n in ast.walk(h) if isinstance(n, ast.For) and isinstance(n.target, ast.Name)]:
+            el = loop.target.id
+            over = isinstance(loop.iter, ast.Attribute) and loop.iter.attr == "elems" and isinstance(loop.iter.value, ast.Name) and loop.iter.value.id == param
+            rec = plain = False
+            for st in ast.walk(loop):
+                if isinstance(st, ast.If) and isinstance(st.test, ast.Call) and isinstance(st.test.func, ast.Name) and st.test.func.id == "isinstance" \
+                        and len(st.test.args) == 2 and isinstance(st.test.args[0], ast.Name) and st.test.args[0].id == el and ast.unparse(st.test.args[1]) == "ArrayProxy":
+                    rec = any(isinstance(y, ast.YieldFrom) and isinstance(y.value, ast.Call) and isinstance(y.value.func, ast.Name) and y.value.func.id == h.name
+                              and len(y.value.args) == 1 and isinstance(y.value.args[0], ast.Name) and y.value.args[0].id == el for b in st.body for y in ast.walk(b))
+                    plain = any(isinstance(y, ast.Yield) and isinstance(y.value, ast.Name) and y.value.id == el for b in st.orelse for y in ast.walk(b))
+            detail = f"loop over {ast.unparse(loop.iter)}: recursion on nested proxies {rec}, other elements yielded {plain}"
+            ok = ok or (over and rec and plain)
+        ctx.check(ok, "C40.proxy-flattening", f"{REL}:{h.lineno}", f"arrayproxy_fields.{h.name}", found=detail,
+                  required="for every element of the proxy: a nested proxy is flattened by the same helper (any depth), any other element is yielded")
+
+
 def check(ctx):
     ctx.use(REL)
+    proxy_flattening(ctx)
     enum_and_defaults(ctx)
     selection(ctx)
     const_item_shape_rule(ctx)
